@@ -395,7 +395,11 @@ func hasOpaque(x *sx) bool {
 }
 
 // instantiatedQuery builds the quantifier-free, goal-directed query.
-func (c *Ctx) instantiatedQuery(goalNeg string, extra []string, nAsserts int) (string, bool) {
+func (c *Ctx) instantiatedQuery(goalNeg string, extra []string, nAsserts int, skip ...map[string]bool) (string, bool) {
+	var skipTags map[string]bool
+	if len(skip) > 0 {
+		skipTags = skip[0]
+	}
 	if nAsserts <= 0 || nAsserts > len(c.asserts) {
 		nAsserts = len(c.asserts)
 	}
@@ -416,7 +420,7 @@ func (c *Ctx) instantiatedQuery(goalNeg string, extra []string, nAsserts int) (s
 		}
 	}
 	var keepVerbatim []string
-	for _, a := range append(append(append([]string{}, c.asserts[:nAsserts]...), extra...), quantFacts...) {
+	for _, a := range append(append(append([]string{}, c.assertsFor(nAsserts, skipTags)...), extra...), quantFacts...) {
 		if strings.HasPrefix(a, "(forall ((") && (strings.Contains(a, ":pattern ((mk$") || strings.Contains(a, ":pattern ((as$")) {
 			// boxing / unboxing round trips of interface values: one variable, a pattern that is a
 			// plain function application -- E-matching instantiates these reliably, keep them as they are
